@@ -80,6 +80,7 @@ pub fn run_history(case: &Json, policy: &Json) -> (Vec<String>, u64, u64) {
         .unwrap_or_default();
     let reuse_eval = case["reuse_evaluator"].as_bool().unwrap_or(false);
     let host_sets = case["host_sets"].as_bool().unwrap_or(true);
+    let host_gc = case["host_gc"].as_bool().unwrap_or(false);
     let printer = kit::TranscriptPrinter;
     let frozen = Module::with_temp_heap(|module| {
         let heap = module.heap();
@@ -128,6 +129,13 @@ pub fn run_history(case: &Json, policy: &Json) -> (Vec<String>, u64, u64) {
             eval.set_print_handler(&printer);
             for (i, stmts) in evals.iter().enumerate() {
                 run_one(&mut eval, i, stmts);
+                if host_gc && policy["kind"] != "never" {
+                    // Host-triggered collection between evaluations (no frame is running; the
+                    // harness holds no Value across this point).
+                    unsafe { eval.garbage_collect() };
+                    let (sp, gc) = counters.get();
+                    counters.set((sp, gc + 1));
+                }
                 between(i);
             }
         } else {
@@ -249,6 +257,7 @@ impl World for C03 {
             "evals": evals,
             "reuse_evaluator": env.bool(),
             "host_sets": env.chance(3, 4),
+            "host_gc": env.chance(1, 3),
             "quarantine": env.chance(2, 3),
             "policies": policies,
         })
